@@ -15,7 +15,7 @@ CLAIMS = {
         '(found by reflection; an unclassified field makes the check inconclusive) set at once to field-specific concrete values; '
         'TLC validates every field of every result against the definition and checks that identically built copies of the inputs '
         'are unchanged.',
-        'Bounded: three abstract values per scalar, two tag keys, lists up to length 2 (thorough 3); one concrete value per abstract '
+        'Bounded: three abstract values per scalar, two tag keys (second key one value in the quick tier), lists up to length 2 (thorough 3); one concrete value per abstract '
         'value and field. The *Raw duration strings are read as parse intermediates, not settings. Negative integers are not explored '
         '(Protocol <= 0 counts as unset in the code).',
         _TECH, '5 C31',
@@ -237,8 +237,8 @@ def c31_vectors(states, seed):
 
 
 def run_c31(ctx, replay):
-    maxlist = 3 if ctx.thorough() else 2
-    consts = "CONSTANT MaxList = %d\n" % maxlist
+    maxlist, maxv2 = (3, 2) if ctx.thorough() else (2, 1)
+    consts = "CONSTANT MaxList = %d\nCONSTANT MaxV2 = %d\n" % (maxlist, maxv2)
     binary = build(ctx)
     mc = None
     if replay:
@@ -262,8 +262,8 @@ def run_c31(ctx, replay):
     fields = sorted(set(l["act"]["f"] for l in vlib.read_ndjson(tp)[:200] if l["act"]["a"] == "field"))
     cov = {
         "states": mc.distinct if mc else 1, "transitions": mc.generated if mc else 1, "exhaustive": bool(mc),
-        "model_constants": "3 abstract values per override field, 2 per switch, tag maps over 2 keys x {absent,1,2} + nil, "
-                           "lists over 2 values up to length %d; all triples of sources per kind" % maxlist,
+        "model_constants": "3 abstract values per override field, 2 per switch, tag maps over 2 keys (values absent,1,2 / absent,1..%d) + nil, "
+                           "lists over 2 values up to length %d; all triples of sources per kind" % (maxv2, maxlist),
         "traces_validated_against_impl": rep.traces, "trace_lines": rep.lines, "divergences": len(rep.diverged),
         "evaluations": rep.lines - rep.traces, "distinct_nontrivial": len(set(json.dumps(s) for s in scheds)),
         "fields_of_agent_Config": len(fields), "monitor_reports": len(rep.monitors),
